@@ -179,6 +179,10 @@ func runC08(w *World, tier string) (bool, interface{}) {
 	c.L.Faults.ShortReads = true
 	c.L.Faults.PermuteResults = true
 	members := AllMembers(n)
+	for _, op := range c.Ops {
+		// operations of the adversary's round-less reinitialisation are left alone
+		op.Filter = func(o *types.Operation) bool { return o.DKGIdentifier != "" }
+	}
 	// junk and duplicates on the board
 	var roundsSeen []string
 	cnt := 0
@@ -187,7 +191,24 @@ func runC08(w *World, tier string) (bool, interface{}) {
 			return
 		}
 		cnt++
-		switch w.Tape.Choose(5, "junkKind") {
+		switch w.Tape.Choose(6, "junkKind") {
+		case 5:
+			// a reinitialisation message that is refused (no round id; half of the time
+			// with this round's log embedded), directly followed by an unauthenticated
+			// variant of the genuine message: whatever the refusal leaves behind in the
+			// running process must not decide how the forgery is treated, or nodes that
+			// restarted in between / joined later disagree with the ones that did not
+			parts, thr := reinitParticipants(w, m.DkgRoundID)
+			var log []storage.Message
+			if w.Tape.Bool(1, 2, "withLog") {
+				log = relabelledLog(w, m.DkgRoundID, "")
+			}
+			env := reinitEnvelope(w, by, "", thr, parts, log)
+			w.Board.InjectMsg(env, &Inject{Kind: "junk-reinit-without-round-id"})
+			x := mutateAuth(w, m, by, []string{"resigned-with-fresh-key", "payload-byte-flipped", "signature-empty"}[w.Tape.Choose(3, "forgeKind")])
+			w.Board.InjectMsg(x, &Inject{Kind: "junk-forged-after-refused-reinit"})
+			w.Stats.Fault("junk")
+			w.Stats.Fault("refused-reinit-then-forgery")
 		case 4:
 			// an authenticated participant broadcasts a "reconstructed signature" whose payload names
 			// another round than the envelope (state of a round may depend only on messages carrying its id)
